@@ -1537,6 +1537,26 @@ func (data *Data) CloneMetaNodes() []NodeInfo {
 	return mns
 }
 
+// CloneReplicaGroups returns a deep copy of the replication groups.
+func (data *Data) CloneReplicaGroups() map[string][]ReplicaGroup {
+	if data.ReplicaGroups == nil {
+		return nil
+	}
+	rgs := make(map[string][]ReplicaGroup, len(data.ReplicaGroups))
+	for db, groups := range data.ReplicaGroups {
+		cp := make([]ReplicaGroup, len(groups))
+		for i := range groups {
+			cp[i] = groups[i]
+			if groups[i].Peers != nil {
+				cp[i].Peers = make([]Peer, len(groups[i].Peers))
+				copy(cp[i].Peers, groups[i].Peers)
+			}
+		}
+		rgs[db] = cp
+	}
+	return rgs
+}
+
 func (data *Data) CloneQueryIDInit() map[SQLHost]uint64 {
 	if data.QueryIDInit == nil {
 		return nil
@@ -3047,7 +3067,9 @@ func (data *Data) Clone() *Data {
 
 	// Copy nodes.
 	other.DataNodes = data.CloneDataNodes()
+	other.SqlNodes = data.CloneSqlNodes()
 	other.MetaNodes = data.CloneMetaNodes()
+	other.ReplicaGroups = data.CloneReplicaGroups()
 
 	other.Databases = data.CloneDatabases()
 	other.Streams = data.CloneStreams()
